@@ -92,7 +92,9 @@ def main():
     lay["Key_k_AltGr"] = "ক্ষ"    # conjunct kkha as one key
     lay["Key_q_AltGr"] = ""                      # empty assignment
     lay.pop("Key_w_AltGr", None)                 # missing assignment
-    lay["Key_Period_AltGr"] = "."                # an ASCII full stop (Probhat's own '.' key emits a danda)
+    # an ASCII full stop (Probhat's own '.' key emits a danda) - on a key whose bundled value ("E") many other keys carry too:
+    # every value of the bundled layout stays typeable in the synthetic one (Key_Period_AltGr is the only key for the nukta sign)
+    lay["Key_B_AltGr"] = "."
     # the punctuation characters of the statement's classes that Probhat has no key for (C12 class sweep)
     for key, ch in zip("bcefgijlmn", "`$\\|><[]{}"):
         lay["Key_%s_AltGr" % key] = ch
